@@ -11,6 +11,7 @@ iteration order `keys` of the unalloc map.
 import ArvVerif.Proofs.C16
 import ArvVerif.Proofs.C16_Complete
 import ArvVerif.Proofs.C16_RunQueue
+import ArvVerif.Proofs.C16_RunQueue2
 namespace ArvVerif.C16
 
 /-! ## Part A -/
@@ -238,6 +239,75 @@ theorem C16_priority_order_strict {σ : Type} (P : Pool σ) (p0 : σ) (unalloc :
   · exact h
   · exact (hnolinger a.uuid (by rw [htr]; exact List.mem_append_left _ h)).elim
   · exact (hcreate a.uuid a.ty (by rw [htr]; exact List.mem_append_left _ h)).elim
+
+/-- **A failed Create acts as a latch too, for pools with monotone Create.** If Create failures are
+monotone within the pass (`CreateMonotone`: the real `worker.Pool` between timer expiries / cloud
+responses, and the stub pool — `C16_stub_monotone`), then after `Create(t)` has failed no
+StartContainer on `t` is made in the rest of the pass: the local count of unallocated workers of
+`t` was exhausted when Create was tried, and every later Create fails. -/
+theorem C16_create_fail_latch {σ : Type} (P : Pool σ) (Dead : σ → Prop) (hm : CreateMonotone P Dead)
+    (p0 : σ) (unalloc : Nat → Int) (keys : List Nat) (sorted : List Ent)
+    (pre post : List Ev) (t u ub : Nat) (r : Bool)
+    (htr : runQueue P p0 unalloc keys sorted = pre ++ Ev.start t ub r :: post) :
+    Ev.create u t false ∉ pre := by
+  intro hc
+  unfold runQueue at htr
+  rcases append_split htr with ⟨post', h1, _⟩ | ⟨pre', _, h2⟩
+  · exact loop_createFail hm sorted _ pre post' t u ub r h1 hc
+  · exact finish_noStart _ _ _ (Ev.start t ub r) (by rw [h2]; simp) t ub r rfl
+
+/-- **Priority order for pools with monotone Create** — the Create exception of
+`C16_priority_order` is discharged: a successful StartContainer of `b` implies that every Locked,
+not-running, strictly higher-priority container of the same type was started earlier in the pass
+or is blocked by its own lingering crunch-run process. -/
+theorem C16_priority_order_monotone {σ : Type} (P : Pool σ) (Dead : σ → Prop) (hm : CreateMonotone P Dead)
+    (p0 : σ) (unalloc : Nat → Int) (keys : List Nat)
+    (entries sorted : List Ent) (hs : IsSorted entries sorted)
+    (hnd : entries.Pairwise (fun a b => a.uuid ≠ b.uuid))
+    (pre post : List Ev) (t : Nat) (a b : Ent)
+    (htr : runQueue P p0 unalloc keys sorted = pre ++ Ev.start t b.uuid true :: post)
+    (ha : a ∈ entries) (hb : b ∈ entries)
+    (hal : a.st = .locked) (har : a.running = false) (hty : a.ty = t) (hpr : b.prio < a.prio) :
+    Ev.start a.ty a.uuid true ∈ pre ∨ Ev.kill true a.uuid true ∈ pre := by
+  rcases C16_priority_order P p0 unalloc keys entries sorted hs hnd pre post t a b htr ha hb hal har hty hpr
+    with h | h | h
+  · exact Or.inl h
+  · exact Or.inr h
+  · rw [hty] at h
+    exact (C16_create_fail_latch P Dead hm p0 unalloc keys sorted pre post t a.uuid b.uuid true htr h).elim
+
+/-- the stub pool of the correspondence check — and, through the `rqp` cases, the real
+`worker.Pool`'s AtQuota / Create / StartContainer bookkeeping it is compared with — has monotone
+Create failures -/
+theorem C16_stub_monotone : CreateMonotone stubPool (fun p => p.canCreate ≤ p.created) :=
+  stubPool_createMonotone
+
+/-- **lockContainer.** `queue.Lock(u)` is called by a pass's goroutines only for a container that
+was Queued in the snapshot, is not running, has priority ≥ 1, whose `KillContainer(u, "about to
+lock")` returned false in the pass, that has no other operation in progress (`uuidLock`) and whose
+cached state is still Queued when the goroutine runs. -/
+theorem C16_lock_only_queued {σ : Type} (P : Pool σ) (p0 : σ) (unalloc : Nat → Int) (keys : List Nat)
+    (sorted : List Ent) (op : Nat → Bool) (cur : Nat → Option CState) (u : Nat)
+    (h : u ∈ lockCalls op cur (runQueue P p0 unalloc keys sorted)) :
+    (∃ e ∈ sorted, e.uuid = u ∧ e.st = .queued ∧ e.running = false ∧ 1 ≤ e.prio) ∧
+    Ev.kill false u false ∈ runQueue P p0 unalloc keys sorted ∧
+    op u = false ∧ cur u = some .queued := by
+  unfold lockCalls at h
+  obtain ⟨h1, h2⟩ := List.mem_filter.mp h
+  obtain ⟨ev, hev, hm⟩ := List.mem_filterMap.mp h1
+  have hlg : ev = Ev.lockgo u := by
+    cases ev <;> simp at hm
+    subst hm; rfl
+  subst hlg
+  unfold runQueue at hev ⊢
+  have hloop : Ev.lockgo u ∈ (loop P sorted (initRQ p0 unalloc)).2.1 := by
+    rcases List.mem_append.mp hev with hh | hh
+    · exact hh
+    · rcases (mem_finish _ _ _ _).mp hh with ⟨_, ⟨e, _, _, h'⟩ | ⟨t, _, _, h'⟩⟩ <;> cases h'
+  obtain ⟨e, he, h3, h4, h5, h6, h7⟩ := loop_lockgo P sorted _ u hloop
+  unfold lockContainerCalls at h2
+  simp only [Bool.and_eq_true, Bool.not_eq_true', decide_eq_true_eq] at h2
+  exact ⟨⟨e, he, h3, h4, h5, h6⟩, List.mem_append_left _ h7, h2.1, h2.2⟩
 
 /-- **The `dontstart` latch.** Once a StartContainer on instance type `t` has failed, no further
 StartContainer on `t` is attempted in the pass (so no lower-priority container of that type can
